@@ -8,6 +8,7 @@ import (
 	"strings"
 
 	"github.com/ovh/kmip-go"
+	"github.com/ovh/kmip-go/kmipclient"
 	"github.com/ovh/kmip-go/kmipserver"
 	"github.com/ovh/kmip-go/payloads"
 	mc "github.com/ovh/kmip-go/zz_verif/mc"
@@ -92,6 +93,80 @@ func mwScenario(nReq, nMsg, nItem int, retry bool) func() {
 	}
 }
 
+// cliMwScenario: nReq callers share one kmipclient.Client (and hence its middleware slice) with nMw yielding stages over a
+// scripted echo server; stage `retry` (if >= 0) invokes its continuation twice. Each caller's trace must be the
+// reference trace and its response must carry its own identifier (the innermost stage is the real transport).
+func cliMwScenario(nReq, nMw, retry int) func() {
+	return func() {
+		resetPackages()
+		w := &cliWorld{seen: map[string]int{}}
+		var mws []kmipclient.Middleware
+		for i := 0; i < nMw; i++ {
+			i := i
+			mws = append(mws, func(next kmipclient.Next, ctx context.Context, msg *kmip.RequestMessage) (*kmip.ResponseMessage, error) {
+				mc.Yield("stage")
+				if tr, ok := ctx.Value(mwTraceKey{}).(*[]string); ok {
+					*tr = append(*tr, fmt.Sprintf("C%d", i))
+				}
+				if i == retry {
+					_, _ = next(ctx, msg)
+				}
+				return next(ctx, msg)
+			})
+		}
+		cl, err := kmipclient.DialContext(context.Background(), "mc", kmipclient.WithDialerUnsafe(w.dialer), kmipclient.EnforceVersion(kmip.V1_4), kmipclient.WithMiddlewares(mws...))
+		if err != nil {
+			mc.Failf("middleware-chain-under-concurrency: dial failed: %v", err)
+			return
+		}
+		var tail func(i int) []string
+		tail = func(i int) []string {
+			if i >= nMw {
+				return []string{}
+			}
+			r := []string{fmt.Sprintf("C%d", i)}
+			if i == retry {
+				r = append(r, tail(i+1)...)
+			}
+			return append(r, tail(i+1)...)
+		}
+		want := strings.Join(tail(0), " ")
+		sends := 1
+		if retry >= 0 {
+			sends = 2
+		}
+		done := make([]*mc.Var[bool], nReq)
+		for r := 0; r < nReq; r++ {
+			r := r
+			done[r] = &mc.Var[bool]{}
+			mc.GoNamed(fmt.Sprintf("caller%d", r), func() {
+				var tr []string
+				ctx := context.WithValue(context.Background(), mwTraceKey{}, &tr)
+				id := fmt.Sprint("id", r)
+				resp, err := cl.Request(ctx, &payloads.ActivateRequestPayload{UniqueIdentifier: id})
+				if err != nil {
+					mc.Failf("middleware-chain-under-concurrency: client call %d failed: %v", r, err)
+				} else if pl, ok := resp.(*payloads.ActivateResponsePayload); !ok || pl.UniqueIdentifier != id {
+					mc.Failf("middleware-chain-under-concurrency: client call %d got %v", r, resp)
+				} else if strings.Join(tr, " ") != want {
+					mc.Failf("middleware-chain-under-concurrency: client call %d ran stages [%s], expected [%s]", r, strings.Join(tr, " "), want)
+				}
+				mc.Observe(mc.HashStr(strings.Join(tr, " ")))
+				done[r].Store(true)
+			})
+		}
+		for _, d := range done {
+			d.Await(true)
+		}
+		_ = cl.Close()
+		for id, n := range w.seen {
+			if n != sends {
+				mc.Failf("middleware-chain-under-concurrency: request %s reached the transport %d times, expected %d", id, n, sends)
+			}
+		}
+	}
+}
+
 func init() {
 	reg := func(name, doc string, f func()) {
 		register(name, func() *Scenario { return &Scenario{Name: name, Doc: doc, Body: f} })
@@ -99,5 +174,8 @@ func init() {
 	reg("mw-conc-2x2", "two concurrent first requests on a fresh executor with 2 message stages and 1 item stage", mwScenario(2, 2, 1, false))
 	reg("mw-conc-2x3", "two concurrent first requests on a fresh executor with 3 message stages and 2 item stages", mwScenario(2, 3, 2, false))
 	reg("mw-conc-3x2", "three concurrent first requests, 2 message stages, 1 item stage", mwScenario(3, 2, 1, false))
+	reg("cmw-conc-2x2", "two concurrent callers through one client with 2 middlewares over a real connection", cliMwScenario(2, 2, -1))
+	reg("cmw-conc-2x2-retry", "two concurrent callers, 2 client middlewares, the outer one calls next twice", cliMwScenario(2, 2, 0))
+	reg("cmw-conc-3x1", "three concurrent callers, 1 client middleware", cliMwScenario(3, 1, -1))
 	reg("mw-conc-2x2-retry", "two concurrent requests, the outermost message stage calls next twice", mwScenario(2, 2, 1, true))
 }
